@@ -234,12 +234,13 @@ def check(cx):
         isa = HDR + "::is_transaction_aborted"
         loops = natural_loops(f)
         via_test = False
-        for c in f.calls():
+        fam_calls = [(f, c) for c in f.calls()] + [(p.fns[x], c) for x in p.closure_children.get(f.id, ()) for c in p.fns[x].calls()]
+        for g_, c in fam_calls:
             if c.callee != isa:
                 continue
-            for h, body in loops:
-                if c.bb not in body:
-                    continue
+            # a loop in the function itself, or an iterator adaptor (filter/for_each/...) whose closure makes the call
+            places = [(h, body) for h, body in loops if c.bb in body] if g_ is f else [(None, None)]
+            for h, body in places:
                 # the loop runs over 0..MAX: a Range aggregate whose end is the constant (possibly cast)
                 for b in f.blocks:
                     for st in b["stmts"]:
